@@ -39,13 +39,15 @@ REQUIRED_COUNTERS = {   # ~40 % of what the unchanged tree produces (determinist
               "cdf_value_checked": 280, "normalisation_quadratures": 12, "slice_quadratures": 100, "cdf_quadratures": 12,
               "dblquad_quadratures": 3, "logd_offset_checked": 3000, "pdf_vs_logpdf_checked": 600, "mrf_value_checked": 500,
               "gmrf_constant_checked": 100, "mhn_difference_checked": 20, "conditioned_value_checked": 500,
-              "threshold_embedding_checked": 170, "reassign_history_checked": 500},
+              "threshold_embedding_checked": 170, "reassign_history_checked": 500, "compute_cov_checked": 600,
+              "cdf_dblquad_checked": 10, "gaussian_cdf_forms_agree_checked": 80},
     "thorough": {"logpdf_value_checked": 5000, "gaussian_form_value_checked": 20000, "gaussian_forms_agree_checked": 20000,
                  "gaussian_logdet_checked": 7000, "gaussian_reassign_checked": 3000, "outside_support_checked": 2000,
                  "cdf_value_checked": 3500, "normalisation_quadratures": 130, "slice_quadratures": 800, "cdf_quadratures": 150,
                  "dblquad_quadratures": 30, "logd_offset_checked": 28000, "pdf_vs_logpdf_checked": 6000, "mrf_value_checked": 1500,
                  "gmrf_constant_checked": 300, "mhn_difference_checked": 150, "conditioned_value_checked": 6000,
-                 "threshold_embedding_checked": 700, "reassign_history_checked": 2500},
+                 "threshold_embedding_checked": 700, "reassign_history_checked": 2500, "compute_cov_checked": 5000,
+                 "cdf_dblquad_checked": 80, "gaussian_cdf_forms_agree_checked": 600},
 }
 BUDGET_S = {"quick": 200.0, "thorough": 1500.0}
 
@@ -639,6 +641,7 @@ def _run_gauss(case, ctx, rs):
     logdet_ref = float(np.linalg.slogdet(Sigma)[1])
     first_vals = None
     quad_objs = {}
+    cov_objs = []
     for param, storage, kind, value, may in entries:
         cfg = {"kind": "gauss", "family": "Gaussian", "param": param, "storage": storage, "sqrt_kind": kind,
                "struct": struct, "side": side, "mean_form": mean_form}
@@ -688,6 +691,8 @@ def _run_gauss(case, ctx, rs):
             ctx.nontrivial(f"Gaussian/{param}/{storage}/refused")
             continue
         ctx.nontrivial(f"Gaussian/{param}/{storage}/{kind}/{side}")
+        if all(v_ is not None and math.isfinite(v_) for v_ in vals):
+            cov_objs.append((g, cfg, ok, param, kind, storage))     # judged after the loop (compute_cov / cdf)
         if not ok:
             continue
         quad_objs.setdefault(param, (g, cfg))
@@ -736,6 +741,7 @@ def _run_gauss(case, ctx, rs):
                 if abs(_scalar(v) - ref) > (1e-9 if d == 1 else 1e-3):   # scipy's numerical mvn cdf for d > 1
                     ctx.violation("cdf_value_mismatch", cfg, detail=f"Gaussian cdf({x.tolist()}) = {_scalar(v)!r}; product of normal cdfs {ref!r}")
     ctx.note("logpdf_ref", refs)
+    _gauss_cov_cdf(ctx, cov_objs, d, mu, Sigma, sd, xs[0], mean_form, rs)
     # quadrature of the library's own pdf: mass one in 1-D, marginal slices in 2-D (one object per parameterisation)
     if d <= 2:
         for param, (g, cfg) in quad_objs.items():
@@ -758,6 +764,79 @@ def _run_gauss(case, ctx, rs):
                 if abs(tot - target) > QA * (1e-7 + 1e-6 * target) + QE * err:
                     ctx.violation("marginal_slice_mismatch", {**cfg, "axis": axis},
                                   detail=f"Gaussian ({param}): int pdf dx_{axis} = {tot!r} (+-{err:.2g}); marginal normal density {target!r}")
+
+def _realised_cov(g, mu, d):
+    """Covariance of the Gaussian that the object's own logpdf realises: logpdf is exactly quadratic, so second
+    differences with unit steps give its Hessian (= -precision) up to round-off. Convention-free."""
+    f = lambda z: _scalar(g.logpdf(z))
+    f0 = f(mu.copy())
+    E = np.eye(d)
+    f1 = [f(mu + E[i]) for i in range(d)]
+    P = np.zeros((d, d))
+    for i in range(d):
+        for j in range(i, d):
+            P[i, j] = P[j, i] = -(f(mu + E[i] + E[j]) - f1[i] - f1[j] + f0)
+    return np.linalg.inv(P)
+
+def _gauss_cov_cdf(ctx, cov_objs, d, mu, Sigma, sd, x0, mean_form, rs):
+    """(a) compute_cov() is the covariance of the distribution logpdf realises; (b) cdf = integral of the object's own
+    pdf (d = 1: quad, d = 2: dblquad, one object per parameterisation x square-root kind); (c) cdf agrees across forms."""
+    import scipy.sparse as sp
+    seen, first_cdf = set(), None
+    for g, cfg, ok, param, kind, storage in cov_objs:
+        sparse_in = storage.startswith("sp_")
+        if d <= 9:
+            kk, Sr = core.outcome(_realised_cov, g, mu, d, refusal=core.REFUSAL_TYPES_BROAD + (np.linalg.LinAlgError,))
+            if kk != "value" or not np.all(np.isfinite(Sr)):
+                continue
+        elif ok:
+            Sr = Sigma
+        else:
+            continue
+        k, C = _val(ctx, "compute_cov", g.compute_cov, may_refuse=sparse_in, cfg=cfg)
+        if k is not None:
+            C = np.asarray(C.toarray() if sp.issparse(C) else C, dtype=float)
+            ctx.count("compute_cov_checked")
+            if C.shape != (d, d) or not np.allclose(C, Sr, rtol=0, atol=1e-7 * float(np.max(np.abs(Sr)))):
+                err = float(np.max(np.abs(C - Sr))) if C.shape == (d, d) else None
+                ctx.violation("compute_cov_differs_from_density", cfg,
+                              detail=f"dim={d}: compute_cov() differs from the covariance realised by the object's own logpdf "
+                                     f"(max abs difference {err}, scale {float(np.max(np.abs(Sr))):.3g})")
+        if d > 3 or (mean_form == "scalar" and d > 1):
+            continue
+        # (b)/(c) cdf
+        k, v = _val(ctx, "cdf", g.cdf, x0.copy(), may_refuse=sparse_in, cfg=cfg)
+        if k is None:
+            continue
+        cv = _scalar(v)
+        tol = 1e-9 if d == 1 else 1e-3          # scipy's mvn cdf is numerical for d > 1
+        if ok:
+            if first_cdf is None:
+                first_cdf = (cv, cfg)
+            else:
+                ctx.count("gaussian_cdf_forms_agree_checked")
+                if cv is None or abs(cv - first_cdf[0]) > tol:
+                    ctx.violation("gaussian_cdf_forms_disagree", cfg,
+                                  detail=f"dim={d}: cdf({x0.tolist()}) = {cv!r}; the form {first_cdf[1]['param']}/{first_cdf[1]['storage']} of the same "
+                                         f"(mean, Sigma) gives {first_cdf[0]!r}")
+        key = (param, kind, "sp" if sparse_in else "dn")
+        if d > 2 or key in seen:
+            continue
+        seen.add(key)
+        sdr = np.sqrt(np.diag(Sr))
+        if d == 1:
+            a, e = _quad(lambda t: _scalar(g.pdf(np.array([t]))), -np.inf, min(mu[0], x0[0]), x0[0])
+            ctx.count("cdf_quadratures")
+            if abs(cv - a) > QA * 1e-6 + QE * e:
+                ctx.violation("cdf_not_integral_of_pdf", cfg, detail=f"Gaussian dim 1: cdf({x0[0]!r}) = {cv!r}; quadrature of its pdf {a!r} (+-{e:.2g})")
+        else:
+            from scipy.integrate import dblquad
+            lo = mu - 9.0 * sdr
+            a, e = dblquad(lambda y, x: _scalar(g.pdf(np.array([x, y]))), lo[0], x0[0], lo[1], x0[1], epsabs=1e-7, epsrel=1e-7)
+            ctx.count("cdf_dblquad_checked")
+            if abs(cv - a) > 1e-3 + QE * e:
+                ctx.violation("cdf_not_integral_of_pdf", cfg,
+                              detail=f"Gaussian dim 2: cdf({x0.tolist()}) = {cv!r}; 2-D quadrature of the object's own pdf over (-inf, x] = {a!r} (+-{e:.2g})")
 
 def _gauss_mismatch(ctx, cfg, param, storage, kind, value, d, mu, x, got, ref):
     import scipy.sparse as sp
